@@ -154,7 +154,7 @@ pub fn gen_tcp_on(src: &mut Src, env: &mut Env, ci: usize, proper: bool) -> (Pkt
     let c = env.conns[ci].clone();
     let (s, d) = (c.remote.0, c.local.0);
     let from = env.peer_of(&s);
-    let kind = if proper { src.weighted(&[10, 6, 3, 1, 1, 0, 0, 2, 1, 1, 0, 1, 1, 0, 1]) } else { src.weighted(&[3, 3, 2, 2, 2, 2, 2, 2, 2, 2, 3, 2, 2, 1, 1]) };
+    let kind = if proper { src.weighted(&[10, 6, 3, 1, 1, 0, 0, 2, 1, 1, 0, 1, 3, 0, 1]) } else { src.weighted(&[3, 3, 2, 2, 2, 2, 2, 2, 2, 2, 3, 2, 2, 1, 1]) };
     let syn_only = c.seen && c.s_flags & SYN != 0 && c.s_flags & ACK == 0;
     let syn_ack = c.seen && c.s_flags & SYN != 0 && c.s_flags & ACK != 0;
     let mut seq = if c.s_ack.is_some() && c.seen { c.s_ack.unwrap() } else { c.p_nxt };
@@ -267,6 +267,10 @@ pub fn gen_tcp_on(src: &mut Src, env: &mut Env, ci: usize, proper: bool) -> (Pkt
             win = 0;
             if src.bool() {
                 payload = vec![0x77];
+            }
+            if src.chance(1, 3) {
+                // acknowledges only part of what is in flight
+                ack = c.s_nxt.wrapping_sub(1 + src.draw(600) as u32);
             }
             name = "tcp:zero-window";
         }
